@@ -30,6 +30,27 @@ def gen_fans_exhaustive(r, tier):
     return ops
 
 
+def gen_startlim(r, tier):
+    """a restart of the daemon: a measured RPM curve of an earlier run is in the database (sparse: measured at a few PWM
+    values only, with gaps between the last value at which the fan stands still and the first at which it spins), then the
+    REAL controller start-up (`Run`: load, attach, map) runs on a fresh fan object; the limits that fan carries into
+    regulation must be those of the stored measurements (seed C13g: the start-up path filled the gaps by interpolation first)"""
+    ops = []
+    for _ in range(10 if tier == "quick" else 150):
+        ks = sorted(set([0, 255] + [r.range(1, 254) for _ in range(r.range(2, 7))]))
+        z = r.range(1, len(ks) - 1)           # the first z points: the fan stands still
+        top = r.range(z, len(ks) - 1)         # from here on the highest speed
+        data = {}
+        for i, k in enumerate(ks):
+            data[k] = 0.0 if i < z else float(min(i, top) * 700 + r.range(0, 90))
+        ns = r.below(2)
+        ops += ["#case startlim", "su.open parallel=1",
+                f"su.fan fan=f1 kind=hwmon ns={ns} cfgmap=1 spinat={r.range(5, 60)}",
+                f"su.putrpm fan=f1 data={streams.float_map_tok(data)}",
+                "su.start fan=f1"]
+    return ops
+
+
 def goint(f):
     if f != f or f in (float("inf"), float("-inf")) or abs(f) >= 2.0**63:
         return -2**63
@@ -70,11 +91,25 @@ class C13(Prop):
             "attachment and setter sequences; fanx: data maps over 6 keys x RPM in {0,0.5,1,300,300.9,1200} (exhaustive in the "
             "thorough tier). non-trivial = distinct (kind, configured mask, neverStop, data shape, attach count)")
     assumptions = ["RPM values are compared in whole RPM (Go int(rpm) truncation), as the property states"]
-    streams = [Stream("fans", gen_fans, parallel=8), Stream("fanx", gen_fans_exhaustive, parallel=8)]
+    streams = [Stream("fans", gen_fans, parallel=8), Stream("fanx", gen_fans_exhaustive, parallel=8),
+               Stream("startlim", gen_startlim, parallel=8)]
 
     def oracle(self, name, ops, go):
         out = []
         for cops, cgo in cases(ops, go):
+            if name == "startlim":
+                data = None
+                for i, (op, g) in enumerate(zip(cops, cgo)):
+                    if op.startswith("su.putrpm"):
+                        data = parse_float_map(kv(op)["data"])
+                    if op.startswith("su.start") and data and kv(g).get("res") == "ok" and "/" in kv(g).get("lim", "-"):
+                        mn, st, mx = (int(x) for x in kv(g)["lim"].split("/"))
+                        es, em = expected_limits(data)
+                        if (st, mx) != (es, em):
+                            out.append(viol(f"after a restart the fan carries start/max {st}/{mx} into regulation; the stored measurements say {es}/{em}",
+                                            cops, cgo, upto=i))
+                            break
+                continue
             if len(cops) < 2 or not cops[1].startswith("fan.new"):
                 continue
             a = kv(cops[1])
@@ -151,6 +186,10 @@ class C13(Prop):
         s = set()
         for cops, cgo in cases(ops, go):
             if len(cops) < 2:
+                continue
+            if name == "startlim":
+                d = next((parse_float_map(kv(o)["data"]) for o in cops if o.startswith("su.putrpm")), None) or {}
+                s.add(("startlim", len(d), expected_limits(d)[0] // 32))
                 continue
             a = kv(cops[1])
             mask = tuple(a.get(k, "-") != "-" for k in ("cmin", "cstart", "cmax"))
